@@ -136,4 +136,16 @@ def operand_cases(rng, tier, arm):
             m = statelib.coq_machine(st)
             out.append({'impl': fbgen.impl_case(key, cls, st, w), 'model': fbgen.model_term(info, cfg, m, w),
                         'spec': spec, 'label': 'operands_' + cls, 'nontrivial': True})
+            # SP / PC in the positions where the encoding allows them: the instruction must still be recognised
+            if cls in optable.VALID and k < (3 if tier == 'quick' else 20):
+                (hi, lo), v = rng.choice(optable.VALID[cls])
+                w2 = setbits(w, hi, lo, v)
+                if cls == 'MovRegisterThumbT3':
+                    w2 &= ~(1 << 20)
+                if v == 15 and in_it:
+                    continue                     # a PC load inside an IT block is only defined for the last instruction
+                f2 = ' :: '.join(render(ent[f], w2, in_it, cflag) for f in names)
+                spec2 = f'(0 :: 1 :: {oc["code"]} :: {len(names) + 1} :: {C.zc(w2)} :: {f2} :: nil)'
+                out.append({'impl': fbgen.impl_case(key, cls, st, w2), 'model': fbgen.model_term(info, cfg, m, w2),
+                            'spec': spec2, 'label': 'valid_operand_' + cls, 'nontrivial': True})
     return out
